@@ -8,6 +8,7 @@ file counts).  Real thread and process pools are run as well, with generated
 per-file delays.
 """
 import datetime as dt
+import io
 import itertools
 import os
 import time
@@ -504,6 +505,99 @@ def check_align(case, ctx):
 
 
 # --------------------------------------------------------------------------
+# truly concurrent readers of compressed files (real threads, barrier-owned)
+# --------------------------------------------------------------------------
+COMPRESSED_TEMPLATE = {
+    "dirs": [[["ph", "id"]]],
+    "file": [["lit", "f_"], ["ph", "year"], ["ph", "month"], ["ph", "day"],
+             ["ph", "hour"], ["ph", "minute"], ["lit", "-"],
+             ["ph", "end_hour"], ["ph", "end_minute"], ["lit", ".dat"]],
+    "user": {"id": {"kind": "regex", "regex": r"\d+", "values": []}},
+    "coverage_s": None,
+}
+
+
+class BarrierReader:
+    """All concurrently running readers meet at a barrier *inside* the
+    decompress block before any of them reads its (temporary) file, so that
+    several decompressed copies are alive at the same moment - the schedule
+    that lets readers see each other's temporary files if those are not
+    private."""
+
+    def __init__(self, parties):
+        import threading
+        self.barrier = threading.Barrier(parties)
+
+    def __call__(self, file_info, **kwargs):
+        import threading
+        try:
+            self.barrier.wait(timeout=3)
+        except threading.BrokenBarrierError:
+            pass
+        with open(file_info.path, "rb") as fh:
+            return int(fh.read())
+
+
+def check_concurrent_readers(case, ctx):
+    import bz2
+    import gzip
+    import lzma
+    import zipfile
+    from typhon.files import FileHandler, FileSet
+    n, workers, fmt = case["n"], case["workers"], case["fmt"]
+    ctx.label("concurrent-" + fmt, "method-" + case["method"])
+    tpl = dict(COMPRESSED_TEMPLATE)
+    tpl["file"] = COMPRESSED_TEMPLATE["file"][:-1] + [["lit", ".dat." + fmt]]
+    with G.Sandbox() as box:
+        root = box.mkdir("tree")
+        tmpdir = box.mkdir("tmp") if case["tmpdir"] else None
+        s = BASE
+        specs = [{"s": s, "e": s + dt.timedelta(minutes=30),
+                  "attrs": {"id": str(i)}, "wild": ""} for i in range(n)]
+
+        def content(f):
+            raw = f.attrs["id"].encode()
+            if fmt == "gz":
+                return gzip.compress(raw)
+            if fmt == "bz2":
+                return bz2.compress(raw)
+            if fmt == "xz":
+                return lzma.compress(raw)
+            buf = io.BytesIO()
+            with zipfile.ZipFile(buf, "w") as zf:
+                zf.writestr(os.path.basename(f.rel)[:-4], raw)
+            return buf.getvalue()
+        pop = G.make_population(root, tpl, specs, content=content)
+        fileset = FileSet(
+            pop.path, name="c10c", placeholder={"id": r"\d+"},
+            handler=FileHandler(reader=BarrierReader(min(workers, n))),
+            temp_dir=tmpdir)
+        if case["method"] == "collect":
+            infos, data = fileset.collect(return_info=True,
+                                          max_workers=workers)
+            got = list(zip(infos, data))
+        else:
+            got = list(fileset.icollect(return_info=True,
+                                        max_workers=workers))
+        pairs = sorted((int(info.attr["id"]), value) for info, value in got)
+        ctx.check(pairs == [(i, i) for i in range(n)],
+                  "concurrent/content-of-another-file", lambda: (
+                      "(file id, content read) = %r for %r" % (pairs, case)))
+        left = os.listdir(tmpdir) if tmpdir else []
+        ctx.check(not left, "concurrent/temp-debris", lambda: repr(left))
+        ctx.nontrivial = True
+
+
+def concurrent_cases():
+    for fmt in ("gz", "bz2", "zip", "xz"):
+        for n in (2, 3, 4):
+            for workers in (2, 3, 4):
+                for method in ("collect", "icollect"):
+                    yield {"n": n, "workers": workers, "fmt": fmt,
+                           "method": method, "tmpdir": (n + workers) % 2 == 0}
+
+
+# --------------------------------------------------------------------------
 # strategies / enumerations
 # --------------------------------------------------------------------------
 def base_case(n, perm, workers, method, **over):
@@ -616,4 +710,6 @@ def suites(tier):
               examples={"quick": 110, "thorough": 1500}),
         Suite("real-pools", check_real, strategy=sampled_cases(real=True),
               examples={"quick": 25, "thorough": 150}),
+        Suite("concurrent-readers", check_concurrent_readers,
+              cases=concurrent_cases, exhaustive=False),
     ]
